@@ -1,6 +1,7 @@
 (* C02 lifted to the public application calls (Model/ApiDefs.v), part 2: run-level completeness over extended histories on a node that
    stays open (the induction of RxProofsI.rrun_RI redone over xrun: an API call on an open node leaves the table, the lists, the
-   known-message switch and the driver queue alone), and the refutation of the safety statement without the exclusion of ASetPgnList. *)
+   known-message switch and the driver queue alone - SetHandleOnlyKnownMessages excepted, which is excluded there), the refutation of
+   the safety statement without the exclusion of ASetPgnList and of the completeness statement without the exclusion of ASetOnlyKnown. *)
 From Coq Require Import ZArith List Bool Lia Permutation.
 From N2kV Require Import Base.ListAux Model.CanId Model.Sched Model.PgnClass Model.NodeDefs Model.NodeRxDefs Model.GroupFnDefs Model.ApiDefs
   Gen.GenTables Gen.GenConsts
@@ -30,7 +31,7 @@ Hypothesis Hkeys : forall f, In f (pre ++ f0 :: mid ++ rest) -> In (key_of f) ke
 
 Notation RI' := (RI keys r0 pre f0 mid cs).
 
-Lemma xrun_RI : forall ops r p ds, RI' p r ds -> p ++ r_q r ++ xframes_of ops = pre ++ f0 :: mid ++ rest -> xstays_open gf r ops -> keeps_lists ops ->
+Lemma xrun_RI : forall ops r p ds, RI' p r ds -> p ++ r_q r ++ xframes_of ops = pre ++ f0 :: mid ++ rest -> xstays_open gf r ops -> keeps_filter ops ->
   exists p', RI' p' (fst (xrun gf r ops)) (ds ++ fp_dlv (concat (snd (xrun gf r ops)))) /\ p' ++ r_q (fst (xrun gf r ops)) = pre ++ f0 :: mid ++ rest.
 Proof.
   induction ops as [|o ops IH]; intros r p ds I Eq Hopen Hk.
@@ -38,7 +39,7 @@ Proof.
   - pose proof (Hopen 0%nat) as Hop. cbn [firstn xrun fst] in Hop.
     assert (Hopen1 : xstays_open gf (fst (xstep gf r o)) ops).
     { intros k. specialize (Hopen (S k)). cbn [firstn xrun] in Hopen. destruct (xstep gf r o) as [r1 ev]. cbn [fst]. destruct (xrun gf r1 (firstn k ops)) as [r2 evs]. exact Hopen. }
-    unfold keeps_lists in Hk. cbn [forallb] in Hk. apply andb_true_iff in Hk. destruct Hk as [Hk1 Hk2].
+    unfold keeps_filter in Hk. cbn [forallb] in Hk. apply andb_true_iff in Hk. destruct Hk as [Hk1 Hk2]. fold (keeps_filter ops) in Hk2.
     rewrite xframes_of_cons in Eq. cbn [xrun].
     assert (Quiet : r_slots (fst (xstep gf r o)) = r_slots r /\ n_pgn (rn (fst (xstep gf r o))) = n_pgn (rn r) /\
                     c_only_known (r_cfg (fst (xstep gf r o))) = c_only_known (r_cfg r) /\ r_q (fst (xstep gf r o)) = r_q r ++ xframes_of [o] /\
@@ -66,7 +67,7 @@ Proof.
       destruct (IH r1 pp _ I3 Eq3 Hopen1 Hk2) as (p' & I4 & Eq4). destruct (xrun gf r1 ops) as [r2 evs]. cbn [fst snd concat] in *.
       exists p'. rewrite fp_dlv_app, app_assoc. auto.
     + apply Quiet. cbn [xstep]. rewrite xframes_of_base. apply (rstep_core gf Hgf r o' Ho Hop).
-    + apply Quiet. cbn [xstep xop_keeps_lists] in *. destruct (api_step_open r a Hk1 Hop) as [(S & Q & N & C & _) E].
+    + apply Quiet. cbn [xstep xop_keeps_filter] in *. destruct (api_step_open r a Hk1 Hop) as [(S & Q & N & C & _) E].
       cbn [xframes_of flat_map]. rewrite app_nil_r, (fp_dlv_nil _ E). auto.
 Qed.
 End Run.
@@ -121,4 +122,39 @@ Proof.
   - injection Hn as <-. vm_compute in Hd. discriminate.
   - injection Hn as <-. vm_compute in Hd. discriminate.
   - destruct i0; discriminate.
+Qed.
+
+(* ---------------- without the exclusion of ASetOnlyKnown the completeness statement is false ---------------- *)
+(* PGN 130816 is a proprietary fast-packet PGN: a fast packet for every configuration, known only if the application lists it.  The node
+   (no application lists, switch off) stores the first frame of a two-frame run; the application then calls
+   SetHandleOnlyKnownMessages(true); the second frame does not pass the filter any more and nothing is delivered. *)
+Definition switch_id : Z := 234815518.    (* priority 3, PGN 130816, source 30 *)
+Definition switch_f0 : rxframe := mkf switch_id [0; 10; 1; 2; 3; 4; 5; 6].
+Definition switch_f1 : rxframe := mkf switch_id [1; 7; 8; 9; 10; 255; 255; 255].
+Definition switch_ops : list xop := [XBase (RRx switch_f0); XBase RPoll; XApi (ASetOnlyKnown true); XBase (RRx switch_f1); XBase RPoll].
+Lemma switch_delivery : fp_dlv (concat (snd (xrun gf_none setlist_node switch_ops))) = [].
+Proof. vm_compute. reflexivity. Qed.
+(* the run is complete and would be delivered without the call *)
+Lemma switch_delivery_without :
+  fp_dlv (concat (snd (xrun gf_none setlist_node [XBase (RRx switch_f0); XBase RPoll; XBase (RRx switch_f1); XBase RPoll]))) = [run_msg switch_f0 [switch_f1]].
+Proof. vm_compute. reflexivity. Qed.
+
+Theorem api_rx_complete_run_lists_refuted : ~ api_rx_complete_run_lists_stmt.
+Proof.
+  intros H.
+  specialize (H gf_none setlist_node switch_ops [] switch_f0 [switch_f1] [] [switch_f1] [(130816, 30, 255)]).
+  rewrite switch_delivery in H. apply H; clear H.
+  - intros r s; repeat split.
+  - split; [reflexivity|repeat constructor].
+  - intros k. do 6 (destruct k as [|k]; [vm_compute; reflexivity|]). vm_compute. reflexivity.
+  - reflexivity.
+  - vm_compute. discriminate.
+  - intros f Hin. cbn in Hin. repeat (destruct Hin as [<-|Hin]; [vm_compute; auto|]). destruct Hin.
+  - reflexivity.
+  - repeat split; vm_compute; reflexivity.
+  - cbn [interleaved]. left. eexists. split; [reflexivity|]. reflexivity.
+  - cbn [seq_ok]. repeat split; vm_compute; congruence.
+  - vm_compute. reflexivity.
+  - intros cs' Hl E. cbn [length] in Hl. destruct cs' as [|x cs']; cbn [length] in Hl; [|lia]. vm_compute. reflexivity.
+  - vm_compute. lia.
 Qed.
